@@ -47,7 +47,7 @@ def plan(tier):
 
 
 def ncases(tier):
-    return 2500 if tier == "quick" else 15000
+    return 6000 if tier == "quick" else 15000
 
 
 def gen_plan(rng, T, nprocs, nev, t0):
